@@ -1469,6 +1469,11 @@ def witness_plans():
                 "cg_ziter_write succeeds in a base without BaseIterativeData_t; cgi_read_zone skips ZoneIterativeData_t unless the base has "
                 "one, so the node (and everything below it) is not reported after reopen",
                 chain(base(), uzone(), Plan("ziter", e_ziter, name=b"ZIter")), []))
+    out.append(("name-blanks-trimmed",
+                "a node name with a leading or trailing blank (legal for cgi_check_strlen: 1..32 characters) is stored without it by "
+                "both back ends: the entity is reported under another name than the one written (and the session mirror keeps the "
+                "written one)",
+                Plan("base", e_base, name=b" lead", cell=3, phys=3), []))
     return out
 
 
@@ -1491,6 +1496,8 @@ def run_witnesses(ck, exe, work):
                 pass
             il2 = [l for i, l in enumerate(il) if not (len(pre) <= i < len(pre) + len(extra))]      # drop the answers to the extra lines
             fs = judge(g, il2, outcome, cf)
+            if fs and all(f["key"].startswith("write-call-failed") for f in fs):
+                fs = []              # the call is refused cleanly: nothing was written that could get lost
             ck.cov["evaluations"] += 1
             ck.cov["traces_validated_against_impl"] += 1
             if fs and key not in active:
@@ -1551,6 +1558,19 @@ def run(ck):
         "malloc never fails",
     ]
     ck.extra["unmodelled"] = UNMODELLED
+    ck.extra["side_findings"] = [
+        "cg_configure(CG_CONFIG_HDF5_COMPRESS, n >= 0): ADFH sets a deflate filter on datasets it never chunks, so every H5Dcreate2 "
+        "fails -- cg_open(CG_MODE_WRITE) itself fails on HDF5 (configuration not exercised)",
+        "cg_configure(CG_CONFIG_RESET, CG_CONFIG_RESET_HDF5) does not clear the core-VFD write-through flag "
+        "(CG_CONFIG_HDF5_DISKLESS_WRITE): a later read-only open fails with 'invalid configuration option'",
+        "a FAILED cg_descriptor_write (name, \"\") leaves a Descriptor_t node of type MT behind; the file can then not be opened "
+        "any more ('Invalid datatype for character data: MT') -- the effect precedes the validation",
+        "cgi_write_particle (reachable only from the unused cgi_write) writes ParticleIterativeData with cgi_write_ziter, i.e. "
+        "under the label ZoneIterativeData_t",
+        "cg_coord_write creates 'GridCoordinates' only while the zone has no GridCoordinates_t node at all: after "
+        "cg_grid_write (.., 'OtherGrid') every cg_coord_write of that zone fails (order dependence of valid calls)",
+        "cg_conn_write compares npnts (= 2 for a PointRange) with the zone size: a CellCenter PointRange on a one-cell zone is refused",
+    ]
     ck.cov["rule"] = ("seeded random files: 1-2 bases (cell/phys dimension 1..3), 1-4 zones each (structured / unstructured), grid "
                       "coordinates (+ rind planes, extra GridCoordinates_t nodes), element sections (fixed size, MIXED, NGON_n, NFACE_n "
                       "with start offsets, parent data), flow solutions (+ location incl. I/J/KFaceCenter, rind) and fields (I4 I8 R4 "
@@ -1560,7 +1580,11 @@ def run(ck):
                       "ordinal, family name, user-defined data nested to depth 3 with arrays of every type and rank 1..4; calls are "
                       "issued in a random interleaving that only respects parent-before-child; array elements mix random bits with "
                       "special patterns (NaN payloads, +-0, denormals, +-inf, extreme magnitudes); names 1..32 printable characters.  "
-                      "Every file is written and read on ADF and HDF5 (thorough: + core VFD, alignment, compression, buffer sizes).  "
+                      "Tranche 2: discrete data, integral data, reference state, convergence history, rigid / arbitrary grid motion, base / zone "
+                      "iterative data, simulation type, gravity, axisymmetry, rotating coordinates, equation set + governing equations.  "
+                      "The first file of a run is written and read on ADF, HDF5 and four HDF5 configurations made through cg_configure (core "
+                      "VFD read back through the core VFD and through the default driver, alignment + metadata block size, buffer / sieve "
+                      "sizes), the others on ADF and HDF5 (thorough: all six for every file).  "
                       "non-trivial = an entity reported after reopen; distinct by (configuration, kind path without indices)")
     # ---- the defects already reported: still there?  (their triggers are then kept out of the random files, so that
     #      the correspondence and the oracle stay sharp for everything else)
@@ -1569,7 +1593,7 @@ def run(ck):
     for key, wit in sorted(active.items()):
         ck.finding(key, {"oracle": ORACLE, "witness": wit, "replay_hint": ".build/h/c01_rt < script (one command per line)"})
     avoid_complex = "complex-array-unreadable" in active or "complex-array-children-lost" in active
-    nsc = 10 if big else 3
+    nsc = 30 if big else 3
     configs_all = list(CONFIGS)
     dist = {"files": 0, "calls": 0, "entities": 0, "functions": set(), "kinds": set(), "configs": {}}
     fails_seen, divs_seen = {}, []
